@@ -495,6 +495,8 @@ func checkC14(c *Ctx) {
 	checkChooseHost(c)
 	// ---------------- R6
 	checkReplicaAttach(c, "R6")
+	checkSlotFill(c, "R6")
+	c.Expect("R6", 3)
 }
 
 // funcsStoredInto: functions (or bound methods) that can be stored into field f.
@@ -980,5 +982,84 @@ func checkReplicaAttach(c *Ctx, rule string) {
 	}
 	if n == 0 {
 		c.Unresolved(rule, "no store to instance.Replicas")
+	}
+}
+
+// checkSlotFill: the routing table is (re)written for every slot a master line lists.
+// Between reading slot number s out of inst.Slots and the store slots[s] = inst the only
+// branch conditions are range tests of s against constants; the stored instance is the one
+// whose Slots list is being walked. A refresh that skips or filters entries leaves stale
+// owners/replica lists behind (writes and replica reads then go to the wrong node).
+func checkSlotFill(c *Ctx, rule string) {
+	p := c.P
+	slotsF := p.Field(redisPkg, "upstream", "slots")
+	instSlotsF := p.Field(redisPkg, "instance", "Slots")
+	if slotsF == nil || instSlotsF == nil {
+		c.Unresolved(rule, "upstream.slots / instance.Slots")
+		return
+	}
+	n := 0
+	for _, a := range p.fieldAccesses(slotsF) {
+		ia, ok := a.In.(*ssa.IndexAddr)
+		if !ok || !a.Write {
+			continue
+		}
+		var st *ssa.Store
+		for _, r := range *ia.Referrers() {
+			if s, ok := r.(*ssa.Store); ok && s.Addr == ssa.Value(ia) {
+				st = s
+			}
+		}
+		if st == nil {
+			continue
+		}
+		n++
+		site := "store slots[s] in " + fnKey(a.Fn)
+		// index s = load(IndexAddr(load(FieldAddr(X, Slots)), k)) and stored value == X
+		sv := ia.Index
+		okSrc := false
+		if u, isU := sv.(*ssa.UnOp); isU && u.Op == token.MUL {
+			if ia2, isIA := u.X.(*ssa.IndexAddr); isIA {
+				if f, base := loadedField(ia2.X); f == instSlotsF && base == st.Val {
+					okSrc = true
+				}
+			}
+		}
+		c.Check(okSrc, rule, site+" source", st.Pos(), "s ranges over inst.Slots of the instance that is stored", "the stored instance is not the one whose slot list is being walked")
+		// conditions after s is defined
+		defB := a.In.Block()
+		if in, ok := sv.(ssa.Instruction); ok {
+			defB = in.Block()
+		}
+		bad := ""
+		for _, b := range a.Fn.Blocks {
+			if !defB.Dominates(b) || !b.Dominates(st.Block()) || b == st.Block() {
+				continue
+			}
+			iff, ok := b.Instrs[len(b.Instrs)-1].(*ssa.If)
+			if !ok {
+				continue
+			}
+			cmp, ok := iff.Cond.(*ssa.BinOp)
+			okc := false
+			if ok {
+				_, c1 := constInt(cmp.Y)
+				_, c2 := constInt(cmp.X)
+				if (cmp.X == sv && c1) || (cmp.Y == sv && c2) {
+					okc = true
+				}
+			}
+			if !okc {
+				bad = p.Pos(iff.Cond.Pos()) + ": " + iff.Cond.String()
+			}
+		}
+		if bad != "" {
+			c.Fail(rule, site+" unconditional", st.Pos(), "the store is skipped depending on a condition other than the range test of the slot number ("+bad+"): a refresh can leave a stale owner / replica list in the table")
+		} else {
+			c.OK(rule, site+" unconditional", st.Pos(), "only range tests of s against constants guard the store")
+		}
+	}
+	if n == 0 {
+		c.Unresolved(rule, "no store into upstream.slots[s]")
 	}
 }
